@@ -338,7 +338,21 @@ pub fn process<I: BufRead, O: Write>(
         None => (None, None),
     };
 
-    while input.read_line(&mut buf)? > 0 {
+    // Text that is not UTF-8 is an error of the source at that line, not an I/O failure
+    let not_utf8 = |e: std::io::Error, line: u32| -> Error {
+        if e.kind() == std::io::ErrorKind::InvalidData {
+            Error::Syntax {
+                filename: filename.clone(),
+                included_in: included_in.clone(),
+                line,
+                msg: "Invalid UTF-8 character".to_string(),
+            }
+        } else {
+            e.into()
+        }
+    };
+
+    while input.read_line(&mut buf).map_err(|e| not_utf8(e, line + 1))? > 0 {
         #[cfg(cc6502_verif)] crate::verif_hooks::tick("cpp.line");
         line += 1;
 
@@ -351,7 +365,7 @@ pub fn process<I: BufRead, O: Write>(
                 buf.pop();
                 buf.pop();
                 let mut buf2 = String::new();
-                if input.read_line(&mut buf2)? > 0 {
+                if input.read_line(&mut buf2).map_err(|e| not_utf8(e, line + 1))? > 0 {
                     buf.push_str(&buf2);
                     line += 1;
                 } else {
